@@ -1367,7 +1367,7 @@ func TestVerifC39(t *testing.T) {
 	r.Note("production_driver", "pkg/cluster has no hash-slot migration executor in this tree (grep for UpdateOutgoingDeltaTargets/EncodeApplyDeltaCommand finds only pkg/slot/fsm and pkg/db/meta); the harness is the driver.")
 
 	base := t.TempDir()
-	n := r.N(130, 1500)
+	n := r.N(160, 1500)
 	for i := 0; i < n; i++ {
 		if r.Skip(i) {
 			continue
